@@ -874,13 +874,37 @@ func body(c *kernel.Ctx) {
 				qctx, qcancel := context.WithTimeout(ctx, w.slotDur*time.Duration(1+verifrt.Intn("w", 30))/10)
 				var err error
 				kind := verifrt.Intn("w", 3)
+				// like the validator API, the requester then rewrites the public keys in what it was given (the
+				// validator client knows share keys, not group keys) - in place, the answer being its own copy
+				share := eth2p0.BLSPubKey{0xee, byte(q), 0x01}
 				switch kind {
 				case 0:
-					_, err = dutiesCache.AttesterDutiesCache(qctx, epoch, idxs)
+					var r eth2wrap.AttesterDutyWithMeta
+					r, err = dutiesCache.AttesterDutiesCache(qctx, epoch, idxs)
+					for _, d := range r.Duties {
+						if d != nil {
+							d.PubKey = share
+						}
+					}
 				case 1:
-					_, err = dutiesCache.ProposerDutiesCache(qctx, epoch, idxs)
+					var r eth2wrap.ProposerDutyWithMeta
+					r, err = dutiesCache.ProposerDutiesCache(qctx, epoch, idxs)
+					for _, d := range r.Duties {
+						if d != nil {
+							d.PubKey = share
+						}
+					}
 				default:
-					_, err = dutiesCache.SyncCommDutiesCache(qctx, epoch, idxs)
+					var r eth2wrap.SyncDutyWithMeta
+					r, err = dutiesCache.SyncCommDutiesCache(qctx, epoch, idxs)
+					for _, d := range r.Duties {
+						if d != nil {
+							d.PubKey = share
+							for i := range d.ValidatorSyncCommitteeIndices {
+								d.ValidatorSyncCommitteeIndices[i] = 8888
+							}
+						}
+					}
 				}
 				qcancel()
 				verifrt.Probe("vc-duties-request-through-shared-cache")
